@@ -57,19 +57,19 @@ pub fn deep_payloads(d: usize) -> Vec<(&'static str, Ov)> {
     let mut arr = Ov::Int(1);
     let mut obj = Ov::Int(1);
     let mut mixed = Ov::str("x");
-    let mut node = Ov::Map(vec![("next".into(), Ov::Null), ("kids".into(), Ov::Seq(vec![])), ("v".into(), Ov::Int(1))]);
-    let mut node_bad = Ov::Map(vec![("next".into(), Ov::Null), ("kids".into(), Ov::Seq(vec![])), ("v".into(), Ov::str("bad"))]);
-    let mut kids = Ov::Map(vec![("next".into(), Ov::Null), ("kids".into(), Ov::Seq(vec![])), ("v".into(), Ov::Null)]);
-    let mut tree = Ov::Map(vec![("t".into(), Ov::str("Leaf")), ("v".into(), Ov::Int(1))]);
-    let mut tree_bad = Ov::Map(vec![("t".into(), Ov::str("Leaf")), ("v".into(), Ov::Neg(-1))]);
+    let mut node = Ov::Map(vec![("next".into(), Ov::Null), ("kids".into(), Ov::Seq(vec![])), ("vv".into(), Ov::Int(1))]);
+    let mut node_bad = Ov::Map(vec![("next".into(), Ov::Null), ("kids".into(), Ov::Seq(vec![])), ("vv".into(), Ov::str("bad"))]);
+    let mut kids = Ov::Map(vec![("next".into(), Ov::Null), ("kids".into(), Ov::Seq(vec![])), ("vv".into(), Ov::Null)]);
+    let mut tree = Ov::Map(vec![("t".into(), Ov::str("Leaf")), ("vv".into(), Ov::Int(1))]);
+    let mut tree_bad = Ov::Map(vec![("t".into(), Ov::str("Leaf")), ("vv".into(), Ov::Neg(-1))]);
     for i in 0..d.saturating_sub(1) {
         arr = Ov::Seq(vec![arr]);
         obj = Ov::Map(vec![("k".into(), obj)]);
         mixed = if i % 2 == 0 { Ov::Seq(vec![mixed, Ov::Null]) } else { Ov::Map(vec![("a".into(), mixed), ("b".into(), Ov::Bool(true))]) };
-        node = Ov::Map(vec![("next".into(), node), ("kids".into(), Ov::Seq(vec![])), ("v".into(), Ov::Null)]);
-        node_bad = Ov::Map(vec![("next".into(), node_bad), ("kids".into(), Ov::Seq(vec![])), ("v".into(), Ov::str("bad"))]);
-        kids = Ov::Map(vec![("next".into(), Ov::Null), ("kids".into(), Ov::Seq(vec![kids])), ("v".into(), Ov::Null)]);
-        let leaf = Ov::Map(vec![("t".into(), Ov::str("Leaf")), ("v".into(), Ov::Int(2))]);
+        node = Ov::Map(vec![("next".into(), node), ("kids".into(), Ov::Seq(vec![])), ("vv".into(), Ov::Null)]);
+        node_bad = Ov::Map(vec![("next".into(), node_bad), ("kids".into(), Ov::Seq(vec![])), ("vv".into(), Ov::str("bad"))]);
+        kids = Ov::Map(vec![("next".into(), Ov::Null), ("kids".into(), Ov::Seq(vec![kids])), ("vv".into(), Ov::Null)]);
+        let leaf = Ov::Map(vec![("t".into(), Ov::str("Leaf")), ("vv".into(), Ov::Int(2))]);
         tree = Ov::Map(vec![("t".into(), Ov::str("Fork")), ("l".into(), tree), ("r".into(), leaf.clone())]);
         tree_bad = Ov::Map(vec![("t".into(), Ov::str("Fork")), ("l".into(), tree_bad), ("r".into(), Ov::Null)]);
     }
